@@ -9,8 +9,6 @@ import (
 	"context"
 	"encoding/json"
 	"fmt"
-	"os"
-	"runtime/pprof"
 	"sort"
 	"strings"
 	"sync/atomic"
@@ -615,11 +613,6 @@ func main() {
 		runCase(run, jc)
 		run.Finish()
 		return
-	}
-	if pf := os.Getenv("VERIF_CPUPROF"); pf != "" {
-		f, _ := os.Create(pf)
-		_ = pprof.StartCPUProfile(f)
-		defer pprof.StopCPUProfile()
 	}
 	for _, jc := range corpus() {
 		runCase(run, jc)
